@@ -120,3 +120,35 @@ pub fn prove_verify_bb1(
         Err(p) => Verdict::Panic(p),
     }
 }
+
+/// BabyBear degree-4 extension as element field (D = 4): prepare, prove, verify.
+pub fn prove_verify_bb4(
+    circuit: &Circuit<p3_field::extension::BinomialExtensionField<BabyBear, 4>>,
+    traces: &Traces<p3_field::extension::BinomialExtensionField<BabyBear, 4>>,
+) -> Verdict {
+    type EF = p3_field::extension::BinomialExtensionField<BabyBear, 4>;
+    let r = quiet_catch(|| {
+        let cfg = fast_baby_bear();
+        let packing = TablePacking::default();
+        let (airs_degrees, prim, nonprim) = match get_airs_and_degrees_with_prep::<BabyBearConfig, _, 4>(circuit, &packing, &[], &[], ConstraintProfile::Standard) {
+            Ok(x) => x,
+            Err(e) => return Verdict::PrepErr(format!("{e:?}")),
+        };
+        let (airs, degs): (Vec<_>, Vec<usize>) = airs_degrees.into_iter().unzip();
+        let pd = ProverData::from_airs_and_degrees(&cfg, &airs, &degs);
+        let cpd = CircuitProverData::new(pd, prim, nonprim);
+        let prover = BatchStarkProver::new(cfg);
+        let proof = match prover.prove_all_tables(traces, &cpd) {
+            Ok(p) => p,
+            Err(e) => return Verdict::ProveErr(format!("{e:?}")),
+        };
+        match prover.verify_all_tables::<EF>(&proof) {
+            Ok(()) => Verdict::Accepted,
+            Err(e) => Verdict::VerifyErr(format!("{e:?}")),
+        }
+    });
+    match r {
+        Ok(v) => v,
+        Err(p) => Verdict::Panic(p),
+    }
+}
